@@ -154,14 +154,17 @@ def run(tier, seed, replay):
         # overlapping registrations: which registration serves which arity (observed through the tag in the result)
         regsets = [[[0, 2, "A"]], [[0, 2, "A"], [1, 1, "B"]], [[1, 3, "A"], [0, 1, "B"], [3, 3, "C"]], [[2, 2, "A"], [0, 3, "B"]], [[0, 0, "A"], [1, 1, "B"], [2, 2, "C"], [0, 3, "D"], [1, 2, "E"]]]
         serving_cases = []
-        for regs in regsets:
-            for ar in range(4):
+        # (registrations up to the largest arity a function can be registered with, 30: every arity of the range is served)
+        bigsets = [[[0, 30, "A"]], [[28, 30, "A"], [29, 29, "B"]], [[30, 30, "Z"]], [[0, 29, "A"], [30, 30, "B"]], [[15, 30, "A"], [0, 16, "B"]]]
+        top = lambda regs: 30 if any(mx > 3 for _, mx, _ in regs) else 3
+        for regs in regsets + bigsets:
+            for ar in range(top(regs) + 1):
                 src = "cf" + ("(" + "; ".join(["0"] * ar) + ")" if ar else "") + " | .[0]"
                 serving_cases.append({"id": len(serving_cases), "k": "custom", "src": src, "regs": regs, "iregs": [], "input": jqgen.V(None), "ar": ar})
         sres = vc.run_restartable([vh, "caps"], serving_cases, work, "serving")
-        for regs in regsets:
+        for regs in regsets + bigsets:
             served = []
-            for ar in range(4):
+            for ar in range(top(regs) + 1):
                 x = next(y for c, y in zip(serving_cases, sres) if c["regs"] == regs and c["ar"] == ar)
                 if "cerr" in x:
                     served.append("none")
@@ -169,7 +172,7 @@ def run(tier, seed, replay):
                     served.append(jqgen.unV(x["out"][0])[0])
                 else:
                     served.append("?")
-            trace.append({"id": 0, "k": "serving", "regs": [{"min": a, "max": b, "tag": t} for a, b, t in regs], "maxar": 3, "served": served})
+            trace.append({"id": 0, "k": "serving", "regs": [{"min": a, "max": b, "tag": t} for a, b, t in regs], "maxar": top(regs), "served": served})
         for i, t in enumerate(trace):
             t["id"] = i
         vc.write_ndjson(work.path("caps.trace"), trace)
